@@ -16,7 +16,7 @@ use utils::{transpose_slice, Deserializable, Serializable, SliceReader};
 use crate::model::{fold_positions_ref, Cfg};
 
 pub fn describe(run: &Arc<Run>) {
-    run.rule("folding identity: for folding factors {2,4,8,16}, domains 2N..512, offset = generator, alpha in {0,1,p-1,seeded,extension values}: apply_drp on the transposed evaluations of EVERY monomial x^j (j < domain size) equals alpha^(j mod N) * y^(j div N) over the folded coset - by linearity this settles every function; position folding / index mapping for ALL position lists of size <= 3 on domains <= 64 against set arithmetic; completeness: every well-formed (folding, blowup 2..128, remainder degree 0..255, domain <= 2^10) schedule x polynomials {zero, constant, exact bound, boundary, seeded} x query lists {one position, all positions, duplicates, colliding after folding}: the real prover's proof is accepted, also after to_bytes/read_from, the prover instance is reused for a second proof, layer count equals the reference count; distinct by enumeration index");
+    run.rule("folding identity: for folding factors {2,4,8,16}, domains 2N..512, offset = generator, alpha in {0,1,p-1,seeded,extension values}: apply_drp on the transposed evaluations of EVERY monomial x^j (j < domain size) equals alpha^(j mod N) * y^(j div N) over the folded coset - by linearity this settles every function; position folding / index mapping for ALL position lists of size <= 3 on domains <= 64 against set arithmetic; completeness: every well-formed (folding, blowup 2..128, remainder degree 0..255, domain <= 2^10) schedule x polynomials {zero, constant, exact bound, boundary, seeded} x query lists {one position, all positions, duplicates, colliding after folding, descending, interleaved}: the real prover's proof is accepted, also after to_bytes/read_from, the prover instance is reused for a second proof, layer count equals the reference count; distinct by enumeration index");
     run.assume("reference arithmetic; domain generator = library root of unity (C07); linearity of apply_drp over the field");
 }
 
@@ -187,6 +187,8 @@ where
                 ("all positions", (0..n).collect()),
                 ("duplicates", vec![3 % n, 3 % n, 0, 0]),
                 ("colliding after folding", vec![1, 1 + n / cfg.k, (1 + 2 * (n / cfg.k)) % n, 0]),
+                ("descending order", { let mut v: Vec<usize> = (0..n).step_by(3).collect(); v.reverse(); v }),
+                ("interleaved order", vec![n - 2, 0, n / 2, 1, n / 2 + 1, n - 1]),
             ];
             let mut prover = FriProver::<E::BaseField, E, _, H>::new(FriOptions::new(cfg.blowup, cfg.k, cfg.rem_deg));
             for (pi, (pname, poly)) in polys.iter().enumerate() {
